@@ -237,7 +237,11 @@ func (pipeline *IncrementalPipeline) sync(job *job, ctx context.Context) (int, e
 							parallelisms = 1
 						}
 
-						psize := int(math.Round(float64(len(entities)) / float64(parallelisms)))
+						// round the chunk size up, so that all chunks together always cover the whole batch
+						// (rounding to nearest dropped the tail of the batch, or produced a negative chunk length)
+						psize := int(math.Ceil(float64(len(entities)) / float64(parallelisms)))
+						// with larger chunks, fewer workers may be enough
+						parallelisms = int(math.Ceil(float64(len(entities)) / float64(psize)))
 						workResults := make([]presult, parallelisms)
 
 						local := func(workId int, lentities []*server.Entity, wg *sync.WaitGroup) {
